@@ -1,4 +1,4 @@
 SPECIFICATION GenSpec
-CONSTANTS Decimals = 6  NoClose = FALSE  AlwaysTxt = FALSE
+CONSTANTS Decimals = 6  NoClose = FALSE  AlwaysTxt = FALSE  RawHeader = FALSE
 CHECK_DEADLOCK FALSE
 INVARIANT EmitCase
